@@ -1,18 +1,21 @@
 import AscaVerif.Lemmas.ParseSpans
 import AscaVerif.Props.C17Lex
-/-! C17 for the rule parser: the errors that underline a TOKEN or a column are well placed, on every line.
+import AscaVerif.Props.C02Lex
+/-! C17 for the rule parser: its errors are well placed, on every line.
 
-    Of the 33 `RuleSyntaxError` variants the parser can return, 24 carry a token (`ExpectedArrow(Token)`, ...), and three
-    carry a column (`UnknownCharacter`, `EmptyInput`, `EmptyOutput`); the formatter underlines that token / column.
-    The token is always the parser's CURRENT token, which is either a token of the lexer's list (whose span is inside
+    Of the 36 `RuleSyntaxError` variants lexer and parser can return, 35 are covered: the 24 that carry a token
+    (`ExpectedArrow(Token)`, ...) and the three that carry a column (`UnknownCharacter`, `EmptyInput`, `EmptyOutput`)
+    underline the parser's CURRENT token / its index, which is either a token of the lexer's list (whose span is inside
     the line: `Lex.lexLine_token_spans`) or the `Eol` the parser makes up after a comment, whose "position" is the token
     INDEX (two units are mixed here, as the property text says) - still inside `[0, len + 1]` because a line of `len`
-    characters has at most `len + 1` tokens and the cursor never leaves the list before the final `Eol` is consumed.
-    The theorem is proved by the step lemmas of `Lemmas/ParseSpans.lean` (the progress lemmas of C02 once more, with
-    this stronger invariant).  NOT covered: the nine variants that underline an ITEM (`itemErrNames`: OptLocError,
-    WordBoundLoc, EmptySet, UnexpectedDiacritic, DiacriticDoesNotMeetPreReqs*, the three word-boundary errors) -
-    their spans come from item positions, which the invariant does not track; they stay with the c17-spec search and the
-    parse-ops comparison of spans. -/
+    characters has at most `len + 1` tokens and the cursor never leaves the list before the final `Eol` is consumed;
+    `WordBoundLoc` and the three word-boundary errors underline a `#` token; `EmptySet` and `OptLocError` underline from
+    an opening bracket to the last token consumed (ordered, because the lexer's tokens are); the two
+    `DiacriticDoesNotMeetPreReqs` errors underline the segment's token and then the diacritic's token, in that order
+    (what the formatter's `" ".repeat(dia.start - elm.end)` needs).  The theorem is proved by the step lemmas of
+    `Lemmas/ParseSpans.lean` (the progress lemmas of C02 once more, under the stronger invariant).  NOT covered:
+    `UnexpectedDiacritic`, which underlines the last ITEM of a term - item positions are not tracked by the invariant; it
+    stays with the c17-spec search and the parse-ops comparison of spans. -/
 namespace Asca.Parse.Spans
 open Asca.Parse
 open Lex (Token TK)
@@ -27,11 +30,29 @@ theorem wellSpaced_count {lo total : Nat} : ∀ {toks : List Token}, Lex.WellSpa
     have := wellSpaced_count (toks := u :: r) h4 (by simp)
     simp only [List.length_cons] at this ⊢; omega
 
+theorem wellSpaced_sorted {lo total : Nat} : ∀ {toks : List Token}, Lex.WellSpaced lo total toks →
+    ∀ (i j : Nat) (ti tj : Token), i < j → toks[i]? = some ti → toks[j]? = some tj → ti.stop ≤ tj.start
+  | [], _, i, j, ti, tj, _, hi, _ => by simp at hi
+  | t :: r, hw, i, j, ti, tj, hij, hi, hj => by
+    obtain ⟨_, _, _, h4⟩ := hw
+    cases j with
+    | zero => omega
+    | succ j' =>
+      simp only [List.getElem?_cons_succ] at hj
+      cases i with
+      | zero =>
+        simp only [List.getElem?_cons_zero, Option.some.injEq] at hi
+        subst hi
+        exact (Lex.wellSpaced_mem h4 tj (List.mem_of_getElem? hj)).1
+      | succ i' =>
+        simp only [List.getElem?_cons_succ] at hi
+        exact wellSpaced_sorted h4 i' j' ti tj (by omega) hi hj
+
 /-- what `Lex.lexLine_token_spans` gives, in the form the parser lemmas use -/
 theorem toksOK_of_lex (src : Text) (toks : List Token) (h : Lex.lexLine src = .ok toks) : ToksOK src.length toks := by
   obtain ⟨hw, tl, hl, hk, _, _⟩ := Lex.lexLine_token_spans src toks h
   have hne : toks ≠ [] := by intro h0; rw [h0] at hl; simp at hl
-  refine ⟨fun t ht => ?_, ?_, ?_⟩
+  refine ⟨fun t ht => ?_, ?_, ?_, Lex.lexLine_numbers_fit src toks h, wellSpaced_sorted hw⟩
   · have := Lex.wellSpaced_mem hw t ht; omega
   · have := wellSpaced_count hw hne; omega
   · intro i t hi hkind
@@ -65,7 +86,7 @@ theorem Spec.bindN {α β} {R : PS → PS → Prop} {s : PS} {x : PRes (α × PS
   cases x with
   | ok v => obtain ⟨a, s'⟩ := v; exact hf a s' hx
   | err e => exact hx
-  | panic p => trivial
+  | panic p => exact hx
   | outOfFuel p => exact hx
 
 theorem ruleEnv_spans (input output : List (List PItem)) (s : PS) (hi : Inv L s) : NoFuel L (ruleEnv input output s) := by
@@ -129,10 +150,7 @@ theorem parseLine_error_spans (src : Text) (e : PErr) (h : parseLine src = .err 
   | ok toks => rw [hl] at h; exact parse_error_spans toks (toksOK_of_lex src toks hl) e h
   | err le =>
     rw [hl] at h; cases h
-    right; intro sp hsp
-    simp only [ofLexErr, List.mem_singleton] at hsp
-    subst hsp
-    exact Lex.lexLine_error_span src le hl
+    exact Or.inr (spansOK_one _ _ (Lex.lexLine_error_span src le hl))
   | panic p => rw [hl] at h; cases h
   | outOfFuel p => rw [hl] at h; cases h
 
@@ -145,13 +163,36 @@ theorem parser_error_formats (groups : List (List Str)) (g l : Nat) (rg : List S
   intro sp hsp
   rcases parseLine_error_spans _ e he with h | h
   · exact absurd h hn
-  · have := h sp hsp
+  · have := h.1 sp hsp
     rw [List.length_map] at this
     exact C17.format_well_placed groups g l sp.1 sp.2 rg line hg hl this.1 this.2
+
+/-- the two-span errors (`DiacriticDoesNotMeetPreReqs*`) format: both caret groups sit under their tokens -/
+theorem parser_two_span_error_formats (src : Text) (e : PErr) (he : parseLine src = .err e) (hn : e.name ∉ itemErrNames)
+    (a b : Nat × Nat) (hs : e.spans = [a, b]) :
+    ∃ carets, ErrFmt.twoSpanLine a.1 a.2 b.1 b.2 = .ok carets ∧ carets.length = b.2 := by
+  rcases parseLine_error_spans src e he with h | h
+  · exact absurd h hn
+  · rw [hs] at h
+    have ha := h.1 a (by simp)
+    have hb := h.1 b (by simp)
+    have hab : a.2 ≤ b.1 := by
+      have := h.2
+      simp only [List.pairwise_cons, List.mem_singleton, forall_eq] at this
+      exact this.1
+    exact C17.twoSpan_ok a.1 a.2 b.1 b.2 src.length ⟨ha.1, hab, hb.1, hb.2⟩
 
 /-! Non-vacuity: lines the parser rejects with token and column errors, among them the made-up `Eol` after a comment -/
 example : (match parseLine ("a > e / _ ;; c".toList.map Char.toNat) with | .err e => some e | _ => none) = some ⟨"ExpectedUnderline", [(4, 5)]⟩ := by decide +kernel
 example : (match parseLine ("a e".toList.map Char.toNat) with | .err e => some e | _ => none) = some ⟨"ExpectedArrow", [(3, 4)]⟩ := by decide +kernel
+example : (match parseLine ("C=99999999999999999999 > 1".toList.map Char.toNat) with | .err e => some e | _ => none) = some ⟨"NumberTooBig", [(2, 22)]⟩ := by
+  decide +kernel
+example : (match parseLine ("a > e / (C)".toList.map Char.toNat) with | .err e => some e | _ => none) = some ⟨"ExpectedUnderline", [(11, 12)]⟩ := by
+  decide +kernel
+example : (match parseLine ("(C) > e".toList.map Char.toNat) with | .err e => some e | _ => none) = some ⟨"OptLocError", [(0, 3)]⟩ := by
+  decide +kernel
+example : (match parseLine ("a > {} / _".toList.map Char.toNat) with | .err e => some e | _ => none) = some ⟨"EmptySet", [(4, 6)]⟩ := by
+  decide +kernel
 example : (match parseLine ("   > a".toList.map Char.toNat) with | .err e => some e | _ => none) = some ⟨"UnknownCharacter", [(0, 1)]⟩ := by decide +kernel
 
 end Asca.Parse.Spans
